@@ -19,6 +19,14 @@ MOUNTS = {
     "buddy_h.rs": ("src/tree_store/page_store/buddy_allocator.rs", "verif_kani"),
     "types_h.rs": ("src/types.rs", "verif_kani"),
     "header_h.rs": ("src/tree_store/page_store/header.rs", "verif_kani"),
+    "cf_h.rs": ("src/tree_store/page_store/cached_file.rs", "verif_kani"),
+    "region_h.rs": ("src/tree_store/page_store/region.rs", "verif_kani"),
+    "pm_h.rs": ("src/tree_store/page_store/page_manager.rs", "verif_kani"),
+    "btree_h.rs": ("src/tree_store/btree_base.rs", "verif_kani"),
+    "tt_h.rs": ("src/tree_store/table_tree_base.rs", "verif_kani"),
+    "tracker_h.rs": ("src/transaction_tracker.rs", "verif_kani"),
+    "base_h.rs": ("src/tree_store/page_store/base.rs", "verif_kani"),
+    "btreev_h.rs": ("src/tree_store/btree.rs", "verif_kani"),
 }
 
 
@@ -66,7 +74,7 @@ unexpected_cfgs = {{ level = "allow" }}
 """
 
 
-def build(ov, gen_for=None):
+def build(ov, gen_for=None, debug_assertions=True):
     """Create the overlay in directory `ov` (must not be inside /repo or /verif).
 
     gen_for: dict harness_file -> generated Rust text replacing the `// @GEN` marker.
@@ -81,16 +89,31 @@ def build(ov, gen_for=None):
         if os.path.exists(os.path.join(REPO, f)):
             shutil.copy(os.path.join(REPO, f), os.path.join(ov, f))
     with open(os.path.join(ov, "Cargo.toml"), "w") as fh:
-        fh.write(CARGO_TOML.format(version=_version(), features=_features_block()))
+        toml = CARGO_TOML.format(version=_version(), features=_features_block())
+        if not debug_assertions:
+            # release-like flavor: redb's debug-only bookkeeping (hash sets of open pages etc.)
+            # compiles out; overflow checks stay on
+            toml = toml.replace("debug-assertions = true", "debug-assertions = false")
+        fh.write(toml)
     # Cargo.lock of the workspace names dev-dependencies that the overlay does not have; a
     # lock file with only the package itself is what the overlay needs
     with open(os.path.join(ov, "Cargo.lock"), "w") as fh:
         fh.write('version = 4\n\n[[package]]\nname = "redb"\nversion = "%s"\n' % _version())
+    # The overlay has no dev-dependencies, and counterexamples are replayed with
+    # `cargo kani playback`, which builds the crate in test mode: compile the repository's own
+    # #[cfg(test)] items out (they are not part of the verified, non-test build anyway).
+    for root, _dirs, files in os.walk(os.path.join(ov, "src")):
+        for f in files:
+            if f.endswith(".rs"):
+                p = os.path.join(root, f)
+                t = open(p).read()
+                if "#[cfg(test)]" in t:
+                    open(p, "w").write(t.replace("#[cfg(test)]", "#[cfg(any())]"))
     os.makedirs(os.path.join(ov, "h"))
     mounted = []
     for hf, (mount, modname) in MOUNTS.items():
         src = os.path.join(HARNESS_DIR, hf)
-        if not os.path.exists(src):
+        if not os.path.exists(src) or mount.startswith("@"):
             continue
         text = open(src).read()
         gen = (gen_for or {}).get(hf, "")
@@ -104,4 +127,112 @@ def build(ov, gen_for=None):
         with open(target, "a") as fh:
             fh.write('\n#[cfg(kani)]\n#[path = "%s"]\npub(crate) mod %s;\n' % (dst, modname))
         mounted.append(hf)
+    # crate-visible constructor of the struct-literal TransactionalMemory (page_manager is a
+    # private module of page_store, which is private to tree_store): re-export chain
+    with open(os.path.join(ov, "src/tree_store/page_store/mod.rs"), "a") as fh:
+        fh.write("\n#[cfg(kani)]\npub(crate) use page_manager::verif_kani::literal_mem_default as verif_literal_mem;\n"
+                 "#[cfg(all(kani, not(debug_assertions)))]\npub(crate) use base::verif_kani::page_impl as verif_page_impl;\n")
+    with open(os.path.join(ov, "src/tree_store/mod.rs"), "a") as fh:
+        fh.write("\n#[cfg(kani)]\npub(crate) use page_store::verif_literal_mem;\n")
     return mounted
+
+
+# ---------------------------------------------------------------------------------------------
+# C19: differential crate against redb 3.0.0 (the released reader, from the cargo cache)
+
+EXPORT_DIR = os.path.join(VERIF, "harness", "export")
+
+# (source file, export file) appended to BOTH overlays; the export module is re-exported at the
+# crate root through the chain of `pub use` lines below
+EXPORTS_CUR = [("src/types.rs", "types_x.rs", "verif_export")]
+EXPORTS_V3 = [("src/types.rs", "types_x_v3.rs", "verif_export")]
+ROOT_REEXPORT = "\n#[cfg(kani)]\npub use types::verif_export as vx_types;\n"
+
+
+def v3_source():
+    import glob
+    c = sorted(glob.glob(os.path.expanduser("~/.cargo/registry/src/*/redb-3.0.0")))
+    if not c:
+        raise RuntimeError("redb 3.0.0 sources not found in the cargo registry cache")
+    return c[0]
+
+
+def _append_exports(root, exports, tag):
+    for src, xf, modname in exports:
+        path = os.path.join(EXPORT_DIR, xf)
+        dst = os.path.join(root, "hx_" + xf)
+        shutil.copy(path, dst)
+        with open(os.path.join(root, src), "a") as fh:
+            fh.write('\n#[cfg(kani)]\n#[path = "%s"]\npub mod %s;\n' % (dst, modname))
+    with open(os.path.join(root, "src", "lib.rs"), "a") as fh:
+        fh.write(ROOT_REEXPORT)
+
+
+def build_diff(ov, gen_for=None):
+    """ov/cur: overlay of /repo (with harness mounts and exports), ov/v3: redb 3.0.0 with
+    exports, ov/diff: the harness crate depending on both."""
+    cur = os.path.join(ov, "cur")
+    build(cur, gen_for)
+    _append_exports(cur, EXPORTS_CUR, "cur")
+    v3 = os.path.join(ov, "v3")
+    if os.path.exists(v3):
+        shutil.rmtree(v3)
+    os.makedirs(v3)
+    src = v3_source()
+    shutil.copytree(os.path.join(src, "src"), os.path.join(v3, "src"))
+    shutil.copy(os.path.join(src, "build.rs"), os.path.join(v3, "build.rs"))
+    with open(os.path.join(v3, "Cargo.toml"), "w") as fh:
+        fh.write("""[package]
+name = "redb"
+version = "3.0.0"
+edition = "2024"
+build = "build.rs"
+
+[dependencies]
+
+[features]
+cache_metrics = []
+logging = []
+
+[lints.rust]
+unexpected_cfgs = { level = "allow" }
+""")
+    _append_exports(v3, EXPORTS_V3, "v3")
+    d = os.path.join(ov, "diff")
+    os.makedirs(os.path.join(d, "src"), exist_ok=True)
+    with open(os.path.join(d, "Cargo.toml"), "w") as fh:
+        fh.write("""[package]
+name = "redb_diff"
+version = "0.0.0"
+edition = "2024"
+
+[workspace]
+
+[dependencies]
+cur = { package = "redb", path = "../cur" }
+v3 = { package = "redb", path = "../v3" }
+
+[profile.dev]
+debug-assertions = true
+overflow-checks = true
+
+[lints.rust]
+unexpected_cfgs = { level = "allow" }
+""")
+    text = open(os.path.join(HARNESS_DIR, "diff_h.rs")).read()
+    text = text.replace("// @GEN", (gen_for or {}).get("diff_h.rs", ""))
+    with open(os.path.join(d, "src", "h.rs"), "w") as fh:
+        fh.write(text)
+    with open(os.path.join(d, "src", "lib.rs"), "w") as fh:
+        fh.write("#![allow(dead_code, unused_imports)]\n#[cfg(kani)]\nmod h;\n")
+    # the overlay Cargo.toml of `cur` declares an empty [workspace]; as a path dependency it
+    # must not
+    ct = os.path.join(cur, "Cargo.toml")
+    txt = open(ct).read().replace("[workspace]\n", "")
+    open(ct, "w").write(txt)
+    os.remove(os.path.join(cur, "Cargo.lock"))
+    return d
+
+
+DIFF_MOUNT = "@diff"
+MOUNTS["diff_h.rs"] = (DIFF_MOUNT, "h")
